@@ -10,7 +10,7 @@ OPT_QUICK_ALL = True      # every partition also in a child interpreter started 
 LEVEL = "exploration"
 TECHNIQUE = "exhaustive enumeration of sense buffers (response codes x valid bit x sense keys x all 65536 ASC/ASCQ pairs x all lengths 1..252 x filler bytes); construction, str(), print() and print_data must not raise and key/ASC/ASCQ are compared with SPC's positions extracted by the independent bit oracle"
 RULE = ("quick: all 65536 ASC/ASCQ pairs x response codes {70h,72h} (key 5) + {71h,73h} (key 6); 16 keys x 9 response codes {70-73,00,6F,74,7E,7F} "
-        "x valid bit x 64 ASC/ASCQ pairs; every length 1..252 x 9 response codes x filler {00,FF} x ADDITIONAL SENSE LENGTH {exact n-7, 0, FFh} with and without print_data; descriptor format x 16 keys x sense data descriptors of 18 types x 7 ADDITIONAL LENGTH values x 4 contents (incl. nested sense data) singly and in pairs; every byte position of the minimal buffer x 256 values x 16 keys; through the real device classes on both transports: every sequence of 1-3 CHECK CONDITIONs, each with its own sense data, over fresh commands and over one command object submitted again (the error describes the sense data of that execution); all ordered pairs and triples of 12 sense buffers built in sequence and kept alive, each compared afterwards with what it reports alone; "
+        "x valid bit x 64 ASC/ASCQ pairs; every length 1..252 x 9 response codes x filler {00,FF} x ADDITIONAL SENSE LENGTH {exact n-7, 0, FFh} with and without print_data; descriptor format x 16 keys x sense data descriptors of 18 types x 7 ADDITIONAL LENGTH values x 4 contents (incl. nested sense data) singly and in pairs; every byte position of the minimal buffer x 256 values x 16 keys; through the real device classes on both transports: every sequence of 1-3 CHECK CONDITIONs, each with its own sense data, over fresh commands and over one command object submitted again (the error describes the sense data of that execution); the 9 codes x valid x 16 keys x 64 pairs family also copied (copy.copy, copy.deepcopy) and pickled, the clone reporting the same; all ordered pairs and triples of 12 sense buffers built in sequence and kept alive, each compared afterwards with what it reports alone; "
         "thorough: the full product 9 codes x 2 valid x 16 keys x 65536 pairs. Non-trivial = anything other than the all-zero 18-byte fixed "
         "buffer; distinct = distinct buffers (x print flag).")
 ASSUMPTIONS = [
@@ -121,6 +121,21 @@ def run_case(case, obs=None):
     exp = expected(buf)
     if obs is not None:
         obs.append((text, exp))
+    if case[-1] == "clone" and text is not None:
+        # the error object travels: copy.copy / copy.deepcopy / pickle (what multiprocessing and concurrent.futures do with a
+        # worker's exception) must give an error that reports the same
+        import copy
+        import pickle
+        for how, fn in (("copy.copy", copy.copy), ("copy.deepcopy", copy.deepcopy), ("pickle", lambda x: pickle.loads(pickle.dumps(x)))):
+            try:
+                c2 = fn(e)
+                with contextlib.redirect_stdout(io.StringIO()):
+                    t2 = str(c2)
+                same = (t2 == text and c2.data == e.data and (c2.asc, c2.ascq, c2.valid, c2.response_code) == (e.asc, e.ascq, e.valid, e.response_code))
+                if not same:
+                    out.append(("clone_differs/%s" % fmt, "%s of the error for sense %s reports %r, the original %r" % (how, buf[:20].hex(), t2, text)))
+            except Exception as ex:   # noqa: BLE001
+                out.append(("clone_raises/%s" % fmt, "%s of the error for sense %s raised %s: %s" % (how, buf[:20].hex(), type(ex).__name__, ex)))
     if bool(e.valid) != bool(buf[0] & 0x80) or e.response_code != (buf[0] & 0x7F):
         out.append(("byte0/%s" % fmt, "valid/response_code = %r/%#x for byte 0 = %#04x" % (e.valid, e.response_code, buf[0])))
     if exp is not None:
@@ -193,12 +208,12 @@ def partitions(tier):
 def run_partition(part, tier, seed):
     acc = Acc(seed)
 
-    def do(buf, show=False):
-        case = [buf.hex(), int(show)]
+    def do(buf, show=False, clone=False):
+        case = [buf.hex(), int(show)] + (["clone"] if clone else [])
         acc.case(case, nontrivial=any(buf[1:]) or buf[0] != 0x70 or show, key=(buf, show))
         obs = []
         try:
-            v = run_case([buf, show], obs)
+            v = run_case([buf, show] + (["clone"] if clone else []), obs)
         except Exception:
             import traceback
             v = [("harness_error", traceback.format_exc()[-500:])]
@@ -306,7 +321,7 @@ def run_partition(part, tier, seed):
         for v in (0, 1):
             for k in range(16):
                 for a, q in pairs:
-                    do(make(c, v, k, a, q))
+                    do(make(c, v, k, a, q), clone=True)
     elif kind == "lengths":
         c = part[1]
         for n in range(1, 253):
